@@ -14,6 +14,8 @@ import SigModel.Model.Pipe
 import SigModel.Lemmas.C06
 import SigModel.Lemmas.C06b
 import SigModel.Lemmas.C06c
+import SigModel.Model.PipePlan
+import SigModel.Lemmas.C06P
 
 namespace SigModel.Props.C06
 open SigModel.Pipe SigModel.Lemmas.C06
@@ -318,6 +320,183 @@ theorem runChain_single (kf : List Val → Nat) (c : Cmd) (parts : List Table) :
   | fillnull v fs => cases fs <;> simp only [runChain, List.foldl, Cmd.stage, List.length, runCmd, runBatched] <;> rw [read_single]
   | _ => simp only [runChain, List.foldl, Cmd.stage, List.length, runCmd, runBatched]; rw [read_single]
 
+/-! ### the plan / parallelism layer (Model/PipePlan.lean): which commands are cloned into parallel chains -/
+
+section plan
+open SigModel.PipePlan SigModel.Lemmas.C06P
+
+/-- every DataProcessor kind: a two-pass command is a bottleneck, a command that ignores its input order is a bottleneck,
+and only commands that ignore their input order are mergeable (the flag literals of dataprocessor.go, tied by the
+correspondence run of suite pipeplan) -/
+theorem kinds_flags_consistent : ∀ d, d ∈ allKinds →
+    (d.twoPass = true → d.bottleneck = true) ∧ (d.ignoresOrder = true → d.bottleneck = true) ∧
+      (d.mergeable = true → d.ignoresOrder = true) := by
+  decide
+
+/-- CanParallelSearch as coded: when it answers (true, i), position i is the FIRST bottleneck of the chain, no command up
+to and including it depends on the order of its input or generates data, and some command up to it ignores its input order -/
+theorem can_parallel_sound (dps : List Flags) (i : Nat) (h : canParallelSearch dps = (true, i)) :
+    (∃ d, dps[i]? = some d ∧ d.bottleneck = true ∧ d.orderMatters = false ∧ d.generates = false) ∧
+    (∀ j d, j < i → dps[j]? = some d → d.bottleneck = false ∧ d.orderMatters = false ∧ d.generates = false) ∧
+    (∃ j d, j ≤ i ∧ dps[j]? = some d ∧ d.ignoresOrder = true) := by
+  obtain ⟨k, hk, hb, hpre, hign⟩ := canParallelGo_sound dps false 0 i h
+  have : i = k := by omega
+  subst this
+  refine ⟨hb, hpre, ?_⟩
+  rcases hign with hc | hi
+  · exact absurd hc (by simp)
+  · exact hi
+
+/-- C06 for the planner: NO two-pass command and no bottleneck is ever cloned into the parallel chains (every chain would
+derive its first-pass state from its own share only), and the command the chains are merged at ignores its input order
+(so it does not matter which rows reach which chain, nor in which order the chains deliver). -/
+theorem cloned_commands_stream (dps : List Flags) (hk : ∀ d, d ∈ dps → d ∈ allKinds) (i : Nat)
+    (h : canParallelSearch dps = (true, i)) :
+    (∀ j d, j < i → dps[j]? = some d → d.twoPass = false ∧ d.bottleneck = false ∧ d.orderMatters = false) ∧
+    (∃ d, dps[i]? = some d ∧ d.ignoresOrder = true ∧ d.bottleneck = true) := by
+  obtain ⟨⟨d, hd, hdb, _, _⟩, hpre, ⟨j, dj, hj, hdj, hi⟩⟩ := can_parallel_sound dps i h
+  refine ⟨?_, ?_⟩
+  · intro j d hj hd
+    have hp := hpre j d hj hd
+    have hw := kinds_flags_consistent d (hk d (List.mem_of_getElem? hd))
+    refine ⟨?_, hp.1, hp.2.1⟩
+    cases ht : d.twoPass with
+    | false => rfl
+    | true => have := hw.1 ht; rw [hp.1] at this; exact absurd this (by simp)
+  · have hw := kinds_flags_consistent dj (hk dj (List.mem_of_getElem? hdj))
+    have hbj := hw.2.1 hi
+    by_cases hji : j < i
+    · have := (hpre j dj hji hdj).1
+      rw [this] at hbj
+      exact absurd hbj (by simp)
+    · have : j = i := by omega
+      subst this
+      have e : dj = d := Option.some.inj (hdj.symm.trans hd)
+      exact ⟨d, hd, e ▸ hi, hdb⟩
+
+/-- the commands of the plan grammar with a meaning in the model -/
+def InGrammar : PCmd → Prop
+  | .base (.scroll _) => False
+  | .shapeOnly _ _ => False
+  | _ => True
+
+/-- a command is chunk-local when its output on a union of inputs is the concatenation of its outputs -/
+def RowLocal (c : PCmd) : Prop :=
+  ∃ f : Table → Table, (∀ t, semP c t = some (f t)) ∧ f [] = [] ∧ ∀ a b, f (a ++ b) = f a ++ f b
+
+/-- every command that CAN be cloned into parallel chains (its DataProcessors are no bottleneck and do not depend on the
+input order) is chunk-local: where, eval, rename, fields, fillnull with a field list, bin with a span — what a chain
+computes on its share is its part of the whole answer -/
+theorem cloned_commands_row_local (c : PCmd) (hg : InGrammar c)
+    (h : ∀ d, d ∈ c.dps → d.bottleneck = false ∧ d.orderMatters = false) : RowLocal c := by
+  cases c with
+  | base b =>
+    cases b with
+    | head n => exact absurd (h headDP (by simp [PCmd.dps])).2 (by simp [headDP])
+    | tail n => exact absurd (h tailDP (by simp [PCmd.dps])).1 (by simp [tailDP])
+    | scroll n => exact absurd hg (by simp [InGrammar])
+    | dedup o => exact absurd (h (dedupDP false) (by simp [PCmd.dps])).2 (by simp [dedupDP])
+    | fillnull v fs =>
+      cases fs with
+      | nil => exact absurd (h (fillnullDP false) (by simp [PCmd.dps])).1 (by simp [fillnullDP])
+      | cons f fs => exact ⟨fillTable (f :: fs) v, fun t => rfl, by simp [fillTable], by intro a b; simp [fillTable]⟩
+    | rename a b => exact ⟨renameTable a b, fun t => rfl, by simp [renameTable, dropEmpty], by intro x y; simp [renameTable, dropEmpty]⟩
+    | fields inc fs => exact ⟨fieldsTable inc fs, fun t => rfl, by simp [fieldsTable, dropEmpty], by intro x y; simp [fieldsTable, dropEmpty]⟩
+  | sort l ks => exact absurd (h sortDP (by simp [PCmd.dps])).1 (by simp [sortDP])
+  | bin f span bins =>
+    cases span with
+    | zero => exact absurd (h (binDP false) (by simp [PCmd.dps])).1 (by simp [binDP])
+    | succ sp => exact ⟨binSpanSem f (sp + 1), fun t => rfl, by simp [binSpanSem], by intro a b; simp [binSpanSem]⟩
+  | stats aggs by_ => exact absurd (h statsDP (by simp [PCmd.dps])).1 (by simp [statsDP])
+  | where_ f op c => exact ⟨whereSem f op c, fun t => rfl, by simp [whereSem], by intro a b; simp [whereSem]⟩
+  | eval n f op c => exact ⟨evalSem n f op c, fun t => rfl, by simp [evalSem], by intro a b; simp [evalSem]⟩
+  | shapeOnly d fs => exact absurd hg (by simp [InGrammar])
+
+/-! ### sort: batches, parallel chains, merge limit, Rewind -/
+
+/-- the rows are told apart by the sort keys (the op format makes the last key row-unique) -/
+def KeysSeparate (ks : List (String × Bool)) (t : Table) : Prop := AS (leKeys ks) t
+
+/-- `sort <limit> <keys>` under the Fetch loop, for EVERY partition of the input into batches: the first `limit` rows of
+the sorted input (sortProcessor.Process merges every sorted batch into resultsSoFar and cuts at the limit) -/
+theorem chunk_invariant_sort (l : Nat) (ks : List (String × Bool)) (parts : List Table)
+    (hu : KeysSeparate ks parts.flatten) :
+    runBatched (sortProc l ks) parts = sortSem l ks parts.flatten :=
+  sort_runBatched (leKeys_trans ks) (leKeys_total ks) (sortLimit l) parts hu
+
+/-- PARALLEL CHAINS + MERGE LIMIT: however the rows are dealt to the chains (`shares`, one table per chain that takes
+part), when every chain sorts its share under the limit and the merger merges the chains' results under the same limit
+(rounds of MergeIQRs, each until a chain is drained; DiscardAfter(limit - numReturned)), the consumer receives exactly
+`sort <limit> <keys>` of the whole input. -/
+theorem parallel_sort_is_sort (l : Nat) (ks : List (String × Bool)) (shares : List Table)
+    (hu : KeysSeparate ks shares.flatten) :
+    (mergerBatches (lessKeys ks) (sortLimit l) (shares.map (sortSem l ks))).flatten = sortSem l ks shares.flatten :=
+  parallel_sort_merge (leKeys_trans ks) (leKeys_total ks) (lessKeys_eq ks) (sortLimit l) shares hu
+
+/-- … in particular the answer does not depend on how many chains there are nor on which rows reach which chain: any two
+dealings of the same rows (permutations of each other) give the same answer -/
+theorem parallel_sort_independent_of_dealing (l : Nat) (ks : List (String × Bool)) (sh₁ sh₂ : List Table)
+    (hp : sh₁.flatten.Perm sh₂.flatten) (hu : KeysSeparate ks sh₁.flatten) :
+    (mergerBatches (lessKeys ks) (sortLimit l) (sh₁.map (sortSem l ks))).flatten
+      = (mergerBatches (lessKeys ks) (sortLimit l) (sh₂.map (sortSem l ks))).flatten := by
+  have hu2 : KeysSeparate ks sh₂.flatten := hu.mono (fun x hx => hp.symm.subset hx)
+  rw [parallel_sort_is_sort l ks sh₁ hu, parallel_sort_is_sort l ks sh₂ hu2]
+  unfold sortSem sortL
+  rw [mergeSort_perm_eq (leKeys_trans ks) (leKeys_total ks) hu hp]
+
+/-- the merger hands out, in total, the first `limit - numReturned` rows of the sorted union of what the chains still
+have to deliver: the counter is what makes the limit global across merge rounds -/
+theorem merger_limit_global (l : Nat) (ks : List (String × Bool)) (s : MergerSt) (fuel : Nat)
+    (hs : ∀ q, q ∈ s.queues → q.Pairwise (fun a b => leKeys ks a b = true)) (hu : KeysSeparate ks s.queues.flatten)
+    (hf : totalLen s.queues < fuel) :
+    (mergerRun (lessKeys ks) l fuel s).2.flatten = (s.queues.flatten.mergeSort (leKeys ks)).take (l - s.numReturned) :=
+  mergerRun_spec (leKeys_trans ks) (leKeys_total ks) (lessKeys_eq ks) l fuel s hs hu hf
+
+/-- REWIND ("in one or two passes"): DataProcessor.Rewind resets numReturned and rewinds the streams, so a two-pass command
+downstream reads from the merger, the second time, exactly what it read the first time -/
+theorem merger_second_pass_same (less : Row → Row → Bool) (limit fuel : Nat) (full : List Table) (s : MergerSt) :
+    (mergerRun less limit fuel (mergerRewind full s)).2 = (mergerRun less limit fuel { queues := full }).2 := rfl
+
+/-- a Rewind that kept the counter (as if only the merger's own second pass reset it) would make the second read come up
+short: here empty, although the first read delivered a row -/
+theorem merger_second_pass_needs_reset :
+    let q : List Table := [[[("id", .int 1)]], [[("id", .int 2)]]]
+    let ks := [("id", true)]
+    let first := mergerRun (lessKeys ks) 1 5 { queues := q }
+    (first.2.flatten = [[("id", .int 1)]]) ∧
+      (mergerRun (lessKeys ks) 1 5 { queues := q, numReturned := first.1.numReturned }).2.flatten = [] := by
+  decide
+
+/-- decidable form of `KeysSeparate` (what the op format guarantees by a row-unique last key) -/
+def keysSeparateB (ks : List (String × Bool)) (t : Table) : Bool :=
+  t.all (fun a => t.all (fun b => !(leKeys ks a b && leKeys ks b a) || a == b))
+
+theorem keysSeparate_of_B (ks : List (String × Bool)) (t : Table) (h : keysSeparateB ks t = true) : KeysSeparate ks t := by
+  intro a b ha hb h1 h2
+  have := List.all_eq_true.mp (List.all_eq_true.mp h a ha) b hb
+  simpa [h1, h2] using this
+
+/-- KNOWN DEVIATION of the unchanged code, as the model has it: when the merged sort is followed by a command that ignores
+its input order (a second sort, stats), setMergeSettings overwrites the merge settings of the first sort with the
+always-true comparator — and keeps a limit … -/
+theorem merge_settings_later_sort_drops_order :
+    (mergeSettingsOf [sortDP, sortDP] (fun i => if i = 0 then 3 else 10000)).getD 0 {} = { less := .always, limit := some 3 } ∧
+    (mergeSettingsOf [sortDP, evalDP, sortDP, statsDP] (fun i => if i = 0 then 3 else 10000)).getD 0 {}
+      = { less := .always, limit := some 10000 } ∧
+    (mergeSettingsOf [sortDP, headDP, sortDP] (fun i => if i = 0 then 3 else 10000)).getD 0 {} = { less := .sortAt 0, limit := some 3 } := by
+  decide
+
+/-- … and a merger with that comparator under a limit does NOT deliver the first rows of the sorted whole (IndexOfMin with an
+always-true `less` picks the last stream): of the two chains' sorted results [id=1] and [id=2] under limit 1 it passes on
+id=2.  `parallel_sort_is_sort` needs the sort's own comparator; for such plans the unchanged code deviates (known finding
+plan-parallel/sort/order-dropped-limit-kept; the Oracle prints no rows for this class) -/
+theorem parallel_sort_order_dropped_counterexample :
+    (mergerBatches (fun _ _ => true) 1 [[[("id", .int 1)]], [[("id", .int 2)]]]).flatten = [[("id", .int 2)]] ∧
+    (mergerBatches (lessKeys [("id", true)]) 1 [[[("id", .int 1)]], [[("id", .int 2)]]]).flatten = [[("id", .int 1)]] := by
+  decide
+
+end plan
+
 /-! ### non-vacuity -/
 
 /-- the table-local assumption is satisfiable, with duplicates and permuted tuples present, for a concrete
@@ -331,5 +510,10 @@ example : keyFaithful (digestKey (fun v => match v with | .int i => i.toNat | _ 
 example : digestKey (fun v => match v with | .int i => i.toNat | _ => 0) (fun l => l.foldl (fun a x => 10 * a + x) 0)
     [.int 1, .int 2] ≠ digestKey (fun v => match v with | .int i => i.toNat | _ => 0) (fun l => l.foldl (fun a x => 10 * a + x) 0)
     [.int 2, .int 1] := by decide
+
+/-- the guard of the sort theorems is satisfiable with ties on the leading keys: the last key is row-unique -/
+example : keysSeparateB [("x", false), ("id", true)]
+    [[("id", .int 1), ("x", .int 5)], [("id", .int 2), ("x", .int 5)], [("id", .int 3), ("x", .null)], [("id", .int 4), ("x", .str "6162")]] = true := by
+  decide
 
 end SigModel.Props.C06
